@@ -627,7 +627,7 @@ def _mapping_slot(a, v):
         a.push(0x40).push(0).op("SHA3")
 
 
-def compile_branch(a, v, rng):
+def compile_branch(a, v, rng, stop=True):
     modes = {"read": ["r"], "write": ["w"], "both": ["r", "w"]}[v.access]
     for mode in modes:
         if v.kind in ("word", "address"):
@@ -702,12 +702,20 @@ def compile_branch(a, v, rng):
                     a.push((2 ** 256 - 1) ^ (mask << off)).op("AND")
                     a.op("OR")
                     a.push(v.slot).op("SSTORE")
-    a.op("STOP")
+    if stop:
+        a.op("STOP")
 
 
 def compile_layout(vs, rng, dispatcher="selector"):
     """one dispatch branch per variable"""
     a = Asm()
+    if dispatcher == "sequence":
+        # no dispatcher at all: the fragments run one after the other on ONE path (adding code behind existing code);
+        # both read the same call-data arguments, the scratch memory and the environment
+        for v in vs:
+            compile_branch(a, v, rng, stop=False)
+        a.op("STOP")
+        return a.assemble()
     if dispatcher == "selector":
         a.push(0).op("CALLDATALOAD").push(0xe0).op("SHR")
         for i, v in enumerate(vs):
@@ -1129,24 +1137,34 @@ def trampoline_programs(rng, n):
             a.label("E%d" % i)
             _tramp_entry(a, rng, 100 + i, last=True)
         a.label("T")
-        a.op(rng.choice(["JUMP", "JUMP", "JUMP", "POP", "JUMPI"]))
+        a.op(rng.choice(["JUMP", "JUMP", "JUMPI", "POP", "JUMPI"]))
         a.op("STOP")
         a.label("OK")
         a.push(1).push(0).op("SSTORE").op("STOP")
+        a.label("OK2")                                       # a second valid landing with different code behind it
+        a.push(2).push(1).op("SSTORE").op("CALLVALUE").op("POP").op("STOP")
         out.append(a.assemble())
     return out
 
 
 def _tramp_entry(a, rng, i, last=False):
-    r = rng.randrange(6)
-    if r == 0:
+    r = rng.randrange(9)
+    if r >= 6:
+        # a condition below a VALID target: at a shared JUMPI each entry path brings its own target (OK or OK2), and a
+        # target resolved for one path says nothing about the next path's
+        if r == 6:
+            a.push(rng.choice([0, 1]))
+        else:
+            a.op("CALLDATASIZE")
+        a.push_label(rng.choice(["OK", "OK2"]))
+    elif r == 0:
         pass                                             # empty stack: underflow at the trampoline
     elif r == 1:
         a.push(rng.choice([0xff, 0xffff, 2 ** 32 + 5, 2 ** 64 + 7, 2 ** 256 - 1]))     # out of range
     elif r == 2:
         a.push(rng.choice([1, 2, 3]))                    # not a JUMPDEST
     elif r == 3:
-        a.push_label("OK")                               # a valid target
+        a.push_label(rng.choice(["OK", "OK2"]))          # a valid target
     elif r == 4:
         a.push(0).push(rng.choice([0xff, 1]))            # two operands (matters when the trampoline is a JUMPI)
     else:
